@@ -47,7 +47,9 @@ type gnode struct {
 }
 
 type graph struct {
-	nodes []*gnode // index = id; nodes[0] is the root
+	nodes   []*gnode // index = id; nodes[0] is the root
+	built   []brigodier.CommandNode
+	removed []int // root children currently unregistered
 }
 
 func genGraph(r *lib.Rng) *graph {
@@ -89,20 +91,22 @@ func genGraph(r *lib.Rng) *graph {
 
 func nameOf(id int) string { return "n" + strconv.Itoa(id) }
 
-// build registers the graph on the dispatcher root and returns the permission table.
-func (g *graph) build(root *brigodier.RootCommandNode) map[string]bool {
-	perms := map[string]bool{}
+// build registers the graph on the dispatcher root and returns the permission table
+// (permission string -> node whose CURRENT requirement outcome answers it).
+func (g *graph) build(root *brigodier.RootCommandNode) map[string]*gnode {
+	perms := map[string]*gnode{}
 	built := make([]brigodier.CommandNode, len(g.nodes))
+	g.built = built
 	for id := len(g.nodes) - 1; id >= 1; id-- {
 		n := g.nodes[id]
 		var req brigodier.RequireFn
 		switch n.reqKind {
 		case 1:
-			v := n.req
-			req = func(context.Context) bool { return v }
+			nd := n
+			req = func(context.Context) bool { return nd.req } // outcome at call time
 		case 2:
 			perm := "verif.node." + strconv.Itoa(id)
-			perms[perm] = n.req
+			perms[perm] = n
 			req = command.Requires(func(c *command.RequiresContext) bool { return c.Source != nil && c.Source.HasPermission(perm) })
 		}
 		var cmd brigodier.Command
@@ -144,6 +148,64 @@ func (g *graph) build(root *brigodier.RootCommandNode) map[string]bool {
 		root.AddChild(built[c])
 	}
 	return perms
+}
+
+// mutate changes what the player may use (and sometimes what is registered) between two
+// AvailableCommands packets of one backend session; returns a tag.
+func (g *graph) mutate(r *lib.Rng, root *brigodier.RootCommandNode) string {
+	var mutable []*gnode
+	for _, n := range g.nodes[1:] {
+		if n.reqKind != 0 {
+			mutable = append(mutable, n)
+		}
+	}
+	switch x := r.Intn(100); {
+	case x < 25:
+		for _, n := range mutable {
+			n.req = false
+		}
+		return "revoke-all"
+	case x < 45:
+		for _, n := range mutable {
+			n.req = true
+		}
+		return "grant-all"
+	case x < 75:
+		for i, k := 0, r.Range(1, 3); i < k && len(mutable) > 0; i++ {
+			n := mutable[r.Intn(len(mutable))]
+			n.req = !n.req
+		}
+		return "flip-nodes"
+	case x < 85:
+		if cs := g.nodes[0].children; len(cs) > 0 {
+			i := r.Intn(len(cs))
+			c := cs[i]
+			root.RemoveChild(nameOf(c))
+			g.nodes[0].children = append(append([]int{}, cs[:i]...), cs[i+1:]...)
+			g.removed = append(g.removed, c)
+			return "unregister-root-command"
+		}
+		return "none"
+	case x < 92:
+		if len(g.removed) > 0 {
+			c := g.removed[len(g.removed)-1]
+			g.removed = g.removed[:len(g.removed)-1]
+			root.AddChild(g.built[c])
+			g.nodes[0].children = append(g.nodes[0].children, c)
+			return "re-register-root-command"
+		}
+		return "none"
+	default:
+		n := &gnode{id: len(g.nodes), depth: 1, req: r.Chance(3, 4), reqKind: 1, exec: true}
+		g.nodes = append(g.nodes, n)
+		nd := n
+		node := brigodier.Literal(nameOf(n.id)).Requires(func(context.Context) bool { return nd.req }).
+			Executes(command.Command(func(*command.Context) error { return nil })).BuildLiteral()
+		g.built = append(g.built, node)
+		root.AddChild(node)
+		g.nodes[0].children = append(g.nodes[0].children, n.id)
+		return "register-new-root-command"
+	}
 }
 
 func (g *graph) coq() string {
@@ -302,12 +364,17 @@ func newProxy(announce bool) *proxy.Proxy {
 	return p
 }
 
-func waitAvailable(client *c2xfix.Conn, d time.Duration) *packet.AvailableCommands {
+// waitAvailable returns the n-th (0-based) AvailableCommands packet the player received.
+func waitAvailable(client *c2xfix.Conn, n int, d time.Duration) *packet.AvailableCommands {
 	deadline := time.Now().Add(d)
 	for {
+		k := 0
 		for _, pk := range client.Written() {
 			if ac, ok := pk.(*packet.AvailableCommands); ok {
-				return ac
+				if k == n {
+					return ac
+				}
+				k++
 			}
 		}
 		if time.Now().After(deadline) {
@@ -344,7 +411,7 @@ func child(variant string) {
 		os.Exit(3)
 	}
 	h.HandlePacket(&proto.PacketContext{Protocol: proto770, Direction: proto.ClientBound, Packet: &packet.AvailableCommands{RootNode: &brigodier.RootCommandNode{}}})
-	if ac := waitAvailable(client, 15*time.Second); ac != nil {
+	if ac := waitAvailable(client, 0, 15*time.Second); ac != nil {
 		fmt.Printf("DONE children=%d\n", len(ac.RootNode.Children()))
 		os.Exit(0)
 	}
@@ -361,18 +428,18 @@ func main() {
 	rng := lib.NewRng(f.Seed)
 	out := lib.NewOut("C23", f)
 	out.Imports = "From Verif Require Import Model.CmdTree.\n"
-	out.Rule = "per case: a proxy command graph of 1-40 nodes under the dispatcher root (depth <= 5, fan-out <= 4, ids in preorder; root children literals, deeper nodes 30% arguments; requirement result 75% true realised as nil requirement / closure / permission lookup through command.Requires; 60% with executor; 20% with a redirect to a node of larger id = descendant, later sibling or later cousin; some nodes have both redirect and children) and a backend root with 0-5 literal children (small subtrees) whose names clash with usable / unusable proxy root commands, with deeper proxy nodes, or not at all; the packet goes through the real backendPlaySessionHandler.HandlePacket with AnnounceProxyCommands on. Plus 3 cyclic-redirect graphs in child processes. distinct = distinct Coq case term; non-trivial = some node is unusable, or some redirect exists, or a backend child clashes with a proxy root command"
-	n := f.Count(260)
+	out.Rule = "per case: a proxy command graph of 1-40 nodes under the dispatcher root (depth <= 5, fan-out <= 4, ids in preorder; root children literals, deeper nodes 30% arguments; requirement result 75% true realised as nil requirement / closure / permission lookup through command.Requires; 60% with executor; 20% with a redirect to a node of larger id = descendant, later sibling or later cousin; some nodes have both redirect and children) and a backend root with 0-5 literal children (small subtrees) whose names clash with usable / unusable proxy root commands, with deeper proxy nodes, or not at all; each backend session (one real backendPlaySessionHandler, AnnounceProxyCommands on) receives 1-4 AvailableCommands packets through HandlePacket, each with a fresh backend root; between two packets the player's requirement outcomes change (revoke all / grant all / flip 1-3 nodes; closures and the permission function answer at call time) or a root command is unregistered / re-registered / newly registered; every packet is one case, judged against the graph and outcomes at that moment. Plus 3 cyclic-redirect graphs in child processes. distinct = distinct Coq case term; non-trivial = some node is unusable, or some redirect exists, or a backend child clashes with a proxy root command"
+	n := f.Count(110) // backend sessions; 1-4 AvailableCommands packets each (about 260 cases)
 	proto770 := version.Minecraft_1_21_5.Protocol
 	for i := 0; i < n; i++ {
 		r := rng.Fork()
 		g := genGraph(r)
 		p := newProxy(true)
-		perms := g.build(&p.Command().Root)
-		broot, bkids := genBackend(r, g)
+		root := &p.Command().Root
+		perms := g.build(root)
 		client, backend := c2xfix.NewConn(proto770), c2xfix.NewConn(proto770)
 		permFn := func(s string) permission.TriState {
-			if v, ok := perms[s]; ok && v {
+			if nd, ok := perms[s]; ok && nd.req {
 				return permission.True
 			} else if ok {
 				return permission.False
@@ -384,61 +451,72 @@ func main() {
 			fmt.Fprintln(os.Stderr, "handler:", err)
 			os.Exit(2)
 		}
-		h.HandlePacket(&proto.PacketContext{Protocol: proto770, Direction: proto.ClientBound, Packet: &packet.AvailableCommands{RootNode: broot}})
-		ac := waitAvailable(client, 15*time.Second)
-		var obs []string
-		var obsDesc []string
-		if ac == nil {
-			out.GoViolation(map[string]any{"known": nil, "index": -1, "what": "player never received the AvailableCommands packet within 15s", "graph": g.desc()})
-		} else {
-			byPtr := map[brigodier.CommandNode]*bchild{}
+		packets := r.Pick(1, 2, 2, 3, 3, 4)
+		change := "first-packet"
+		for k := 0; k < packets; k++ {
+			if k > 0 {
+				// same backend session, same handler: the player's requirement outcomes (and sometimes
+				// the registered commands) change before the backend resends its tree
+				change = g.mutate(r, root)
+			}
+			broot, bkids := genBackend(r, g)
+			h.HandlePacket(&proto.PacketContext{Protocol: proto770, Direction: proto.ClientBound, Packet: &packet.AvailableCommands{RootNode: broot}})
+			ac := waitAvailable(client, k, 15*time.Second)
+			var obs []string
+			var obsDesc []string
+			if ac == nil {
+				out.GoViolation(map[string]any{"known": nil, "index": -1, "what": "player never received the AvailableCommands packet within 15s", "graph": g.desc(), "packet_no": k})
+			} else {
+				byPtr := map[brigodier.CommandNode]*bchild{}
+				for _, b := range bkids {
+					byPtr[b.node] = b
+				}
+				ctx := command.ContextWithSource(context.Background(), nil)
+				ac.RootNode.ChildrenOrdered().Range(func(_ string, c brigodier.CommandNode) bool {
+					if b, ok := byPtr[c]; ok {
+						obs = append(obs, lib.App("MBackend", lib.App("mkB", lib.N(uint64(b.key)), lib.N(fingerprint(c)))))
+						obsDesc = append(obsDesc, "backend:"+c.Name())
+					} else {
+						obs = append(obs, lib.App("MProxy", otree(c, 0, ctx)))
+						obsDesc = append(obsDesc, "proxy:"+c.Name())
+					}
+					return true
+				})
+			}
+			term := lib.App("Check.C23.mk", g.coq(),
+				lib.ListOf(bkids, func(b *bchild) string { return lib.App("mkB", lib.N(uint64(b.key)), lib.N(b.fp)) }), lib.List(obs))
+			unusable, redirects, clash := 0, 0, 0
+			for _, nd := range g.nodes[1:] {
+				if !nd.req {
+					unusable++
+				}
+				if nd.redirect != 0 {
+					redirects++
+				}
+			}
 			for _, b := range bkids {
-				byPtr[b.node] = b
-			}
-			ctx := command.ContextWithSource(context.Background(), nil)
-			ac.RootNode.ChildrenOrdered().Range(func(_ string, c brigodier.CommandNode) bool {
-				if b, ok := byPtr[c]; ok {
-					obs = append(obs, lib.App("MBackend", lib.App("mkB", lib.N(uint64(b.key)), lib.N(fingerprint(c)))))
-					obsDesc = append(obsDesc, "backend:"+c.Name())
-				} else {
-					obs = append(obs, lib.App("MProxy", otree(c, 0, ctx)))
-					obsDesc = append(obsDesc, "proxy:"+c.Name())
-				}
-				return true
-			})
-		}
-		term := lib.App("Check.C23.mk", g.coq(),
-			lib.ListOf(bkids, func(b *bchild) string { return lib.App("mkB", lib.N(uint64(b.key)), lib.N(b.fp)) }), lib.List(obs))
-		unusable, redirects, clash := 0, 0, 0
-		for _, nd := range g.nodes[1:] {
-			if !nd.req {
-				unusable++
-			}
-			if nd.redirect != 0 {
-				redirects++
-			}
-		}
-		for _, b := range bkids {
-			for _, c := range g.nodes[0].children {
-				if b.key == c {
-					clash++
+				for _, c := range g.nodes[0].children {
+					if b.key == c {
+						clash++
+					}
 				}
 			}
+			var bdesc []string
+			for _, b := range bkids {
+				bdesc = append(bdesc, b.node.Name())
+			}
+			size := "nodes<=8"
+			if len(g.nodes) > 25 {
+				size = "nodes>25"
+			} else if len(g.nodes) > 8 {
+				size = "nodes<=25"
+			}
+			out.Add(term, map[string]any{"session": i, "packet_no": k, "change_before_packet": change, "graph_with_current_requirement_outcomes": g.desc(),
+				"backend_children": bdesc, "observed_root_children": obsDesc},
+				unusable > 0 || redirects > 0 || clash > 0,
+				size, fmt.Sprintf("unusable=%v", unusable > 0), fmt.Sprintf("redirects=%v", redirects > 0), fmt.Sprintf("root_name_clash=%v", clash > 0),
+				fmt.Sprintf("backend_children=%d", len(bkids)), fmt.Sprintf("packet_no=%d", k), "change="+change)
 		}
-		var bdesc []string
-		for _, b := range bkids {
-			bdesc = append(bdesc, b.node.Name())
-		}
-		size := "nodes<=8"
-		if len(g.nodes) > 25 {
-			size = "nodes>25"
-		} else if len(g.nodes) > 8 {
-			size = "nodes<=25"
-		}
-		out.Add(term, map[string]any{"graph": g.desc(), "backend_children": bdesc, "observed_root_children": obsDesc},
-			unusable > 0 || redirects > 0 || clash > 0,
-			size, fmt.Sprintf("unusable=%v", unusable > 0), fmt.Sprintf("redirects=%v", redirects > 0), fmt.Sprintf("root_name_clash=%v", clash > 0),
-			fmt.Sprintf("backend_children=%d", len(bkids)))
 	}
 	// cyclic redirects: child processes (fatal stack overflow is not recoverable in-process)
 	self, _ := os.Executable()
